@@ -197,6 +197,7 @@ const (
 	oLedger                           // C03
 	oQuota                            // C09
 	oChamp                            // C10
+	oSpeciate                         // C08
 )
 
 type linkKey struct {
@@ -539,6 +540,16 @@ func (r *popRun) afterConstruct(pop *genetics.Population) {
 		}
 	}
 	r.checkGenomes(pop, 0)
+	if r.oracles&oSpeciate != 0 {
+		// replay the constructor's speciation on an empty reference
+		m := &specModel{}
+		if _, hb := hbSpecs[r.sc.Seed]; !hb {
+			if msg := c08Follow(m, pop.Organisms, r.opts, pop); msg != "" {
+				r.violate("C08", "constructor-placement", msg, 0)
+			}
+			r.count("constructed_populations_followed")
+		}
+	}
 	if r.oracles&oPop != 0 {
 		if msg := r.partition(pop, nil); msg != "" {
 			r.violate("C02", "constructed-population", msg, 0)
@@ -939,8 +950,21 @@ func (r *popRun) step(ctx context.Context, pop *genetics.Population, gen int, pr
 			if len(babies) != r.opts.PopSize {
 				return fmt.Errorf("progeny size %d != %d", len(babies), r.opts.PopSize)
 			}
+			var model *specModel
+			if r.oracles&oSpeciate != 0 {
+				model = modelOf(pop)
+				if r.maxSpID > model.maxID {
+					model.maxID = r.maxSpID // ids issued earlier in the run, whatever the population records now
+				}
+			}
 			if err := pop.VSpeciate(ctx, babies); err != nil {
 				return err
+			}
+			if model != nil {
+				if msg := c08Follow(model, babies, r.opts, pop); msg != "" {
+					r.violate("C08", "epoch-placement", msg, gen)
+				}
+				r.count("baby_batches_followed")
 			}
 		}
 		if r.oracles&oLedger != 0 {
